@@ -3,7 +3,7 @@
 REAL = ("real code: the whole github.com/bufbuild/connect-go package built from the working tree with -tags verif "
         "(Client, Handler, envelope framing, compression, codecs, error/trailer mapping, duplexHTTPCall, interceptors)")
 STUB = ("stub: simhttp replaces net/http's client transport and server (header commit, flush, trailers, flow-control "
-        "windows, stream reset, request-body close after early handler return); calibrated against measured net/http behaviour (DESIGN 3.3)")
+        "windows, stream reset, request-body close after early handler return, request-body reader lag, late end of response); calibrated against measured net/http behaviour (DESIGN 3.3)")
 SCHED = ("simulated: goroutine scheduling (seeded scheduler over transport operations and library yield points), "
          "clock (testing/synctest fake clock), sync.Pools (deterministic poisoned free lists)")
 
@@ -69,7 +69,9 @@ PROPS = {
         "in flight at the instant may report the limit only if it had consumed the whole offending envelope); "
         "checked by step number / fake time: operations started after the instant fail with canceled / deadline_exceeded (Send may return io.EOF), "
         "final outcome never success; distinct = distinct scheduler-log hash among runs with >= 2 candidates",
-        16000, 300000),
+        16000, 300000,
+        extra_assume=["the transport propagates a client-side cancellation to the server's request context (the stub always does; net/http's HTTP/1.1 "
+                      "server does so only once the request body has been read to its end - measured in the calibration world, DESIGN.md 9)"]),
     "C19": e2e(
         "each run = one seeded call whose handler program panics (crash fault of the handler task) with nil / error / string / struct / "
         "slice / map / struct holding a slice / pointer / http.ErrAbortHandler / an error wrapping it, optionally after forwarding the received "
